@@ -534,3 +534,25 @@ impl Property for C11 {
         o
     }
 }
+
+/// Deterministic sample of generated operator expressions rendered as small programs
+/// (`v0 = <expr>` lines); used by C10 as additional corpus material.
+pub fn sample_sources(files: usize, lines: usize) -> Vec<String> {
+    use proptest::strategy::ValueTree;
+    use proptest::test_runner::{Config, RngAlgorithm, TestRng, TestRunner};
+    let rng = TestRng::from_seed(RngAlgorithm::ChaCha, &[0x5e; 32]);
+    let mut runner = TestRunner::new_with_rng(Config { failure_persistence: None, ..Config::default() }, rng);
+    let strat = chain(2);
+    let mut out = vec![];
+    for _ in 0..files {
+        let mut src = String::new();
+        for k in 0..lines {
+            let Ok(tree) = strat.new_tree(&mut runner) else { continue };
+            let mut p = Printer { toks: vec![], text: String::new() };
+            p.chain(&tree.current());
+            src.push_str(&format!("v{k} = {}\n", p.text));
+        }
+        out.push(src);
+    }
+    out
+}
